@@ -31,7 +31,7 @@ func init() {
 
 type c11Case struct {
 	stmts    int
-	ending   int // 0 nil, 1 error, 2 panic
+	ending   int // 0 nil, 1 error, 2 panic, 3 panic(nil)
 	at       int // after how many statements the ending happens
 	fault    string
 	ignoreEx bool // body ignores an Exec error
@@ -46,6 +46,9 @@ var c11Cases = func() []c11Case {
 		ends := []end{{0, stmts}}
 		for k := 0; k <= stmts; k++ {
 			ends = append(ends, end{1, k}, end{2, k})
+			if k == stmts {
+				ends = append(ends, end{3, k})
+			}
 		}
 		for _, e := range ends {
 			faults := []string{"", "begin", "commit", "rollback", "open"}
@@ -118,6 +121,9 @@ func c11Tx(r *zsim.Run, c c11Case) {
 					return c11ErrBody
 				case 2:
 					panic("body-panic")
+				case 3:
+					var nothing any
+					panic(nothing) // the module's language version lets recover() return nil for this
 				}
 			}
 			if k < c.stmts {
@@ -177,7 +183,7 @@ func c11Tx(r *zsim.Run, c c11Case) {
 	}
 	// what the body did
 	bodyNil := c.ending == 0 && !(execErrSeen != nil && !c.ignoreEx)
-	bodyPanic := c.ending == 2 && !(execErrSeen != nil && !c.ignoreEx)
+	bodyPanic := c.ending >= 2 && !(execErrSeen != nil && !c.ignoreEx)
 	switch {
 	case bodyNil:
 		if commits != 1 || rollbacks != 0 {
